@@ -141,6 +141,12 @@ def run(world, rep, tier, only=None):
         lits = control_lits(pf, c)
         ok = any("st_nlink" in T.field_names(a) for t, a in lits)
         rep.ob("C18.c", site(pf, "multiply-linked entries are looked up"), ok, "is_hardlink() runs under st.st_nlink > 1")
+        # any kind of object other than a directory can have several names (a symbolic link too): the only test of
+        # the type on the way to the lookup is the one that sets directories aside
+        typed = [(t, a) for t, a in lits + restrict_lits(pf, c) if "st_mode" in T.field_names(a)]
+        other = [T.pp(a)[:40] for t, a in typed if not ({"S_ISDIR", "S_IFDIR", "__S_IFDIR"} & T.macros(a))]
+        rep.ob("C18.c", site(pf, "every kind of multiply-linked object is looked up"), not other,
+               "tests of st_mode on the way to is_hardlink() other than the one for directories: %s" % sorted(set(other)))
         args = [T.pp(a) for a in c.ev["x"].get("a", [])]
         rep.ob("C18.c", site(pf, "group identity is (device, inode)"), any("st_dev" in a for a in args) and any("st_ino" in a for a in args),
                "is_hardlink(hdlinks, st.st_dev, st.st_ino)")
@@ -293,6 +299,35 @@ def run(world, rep, tier, only=None):
     # comes out shorter than its source.
     from rules import C09
     C09.expand_keeps_size(prog, rep, "C18.g")
+
+    # ------------------------------------------------------------------ C18.h an inline file is never left longer than its inline area
+    # do_write_internal() gives the new inode its full length and the inline flag before any data is copied, and the
+    # copy skips holes and blocks of zeroes: a source without any data to copy writes nothing, so nothing expands the
+    # file.  On every path on which copy_file() succeeds the inline state is therefore compared with the length (a
+    # test of EXT4_INLINE_DATA_FL / the size of the inline area, directly or in a helper).
+    cpf = cf["copy_file"]
+
+    def inline_check(f, n):
+        if is_call(n, "ext2fs_inline_data_size", "ext2fs_inline_data_expand"):
+            return True
+        lit = f.literal(n.bid) if n is f.block_end(n.bid) else None
+        return bool(lit and "EXT4_INLINE_DATA_FL" in T.macros(lit[0]))
+    marks = set()
+    for n in cpf.nodes():
+        if inline_check(cpf, n) or (n.ev and n.ev["e"] == "C" and not n.ev["x"].get("spl") and
+                                    call_reaches(prog, cpf, n, inline_check, depth=2) and
+                                    not is_call(n, "ext2fs_file_open", "ext2fs_file_open2", "ext2fs_file_close", "ext2fs_file_write",
+                                                "ext2fs_file_llseek", "ext2fs_file_flush", "copy_file_chunk", "try_lseek_copy",
+                                                "try_fiemap_copy")):
+            marks.add(n)
+    ex = absint.Explorer(cpf, prog)
+    terms = ex.run([cpf.entry_node()], on_node=lambda n, env, fl, _m=marks: (fl | {"chk"}) if n in _m else fl)
+    bad = [(node.line, ex.trace(st)[-6:]) for (node, env, fl, st) in terms
+           if node.ev and node.ev["e"] == "R" and not absint._nz(ex.eval(node.ev.get("x"), env)) and "chk" not in fl]
+    rets = [1 for (node, env, fl, st) in terms if node.ev and node.ev["e"] == "R" and not absint._nz(ex.eval(node.ev.get("x"), env))]
+    rep.floor("C18.h successful returns of copy_file explored", len(rets), 1)
+    rep.ob("C18.h", site(cpf, "inline state compared with the length on every successful copy"), not bad,
+           "paths on which copy_file() may return 0 without a test of EXT4_INLINE_DATA_FL / ext2fs_inline_data_size(): %s" % bad[:2])
 
     # ------------------------------------------------------------------ C18.w offset width
     fns = [f for f in prog.functions() if f.file in (CI, "misc/create_inode_libarchive.c", "misc/mk_hugefiles.c")] + \
